@@ -1,12 +1,18 @@
 #!/bin/bash
 # Re-generates every seeded patch.diff against /repo's current HEAD (so that plain `git apply` works).
+# A patch is merged three-way against the blobs it was written for; if that conflicts the patch is left as it is and
+# reported, to be re-based by hand.
 T=$(mktemp -d /tmp/seedrebase.XXXXXX)
 git -C /repo worktree add --detach "$T/r" HEAD >/dev/null 2>&1
 for d in /verif/seeded/*/; do
   n=$(basename "$d")
-  ( cd "$T/r" && git checkout -q -- . && git clean -fdq
-    if git apply --3way "$d/patch.diff" >/dev/null 2>&1; then git reset -q; git diff > "$d/patch.diff.new"; if cmp -s "$d/patch.diff" "$d/patch.diff.new"; then rm "$d/patch.diff.new"; echo "$n: applies"; else mv "$d/patch.diff.new" "$d/patch.diff"; echo "$n: re-based (3-way)"; fi
-    elif patch -p1 -s -F3 < "$d/patch.diff" >/dev/null 2>&1; then find . -name '*.orig' -delete; find . -name '*.rej' -delete; git diff > "$d/patch.diff"; echo "$n: re-based"
-    else echo "$n: DOES NOT APPLY"; fi )
+  ( cd "$T/r" && git reset -q --hard HEAD && git clean -fdq
+    if git apply --3way "$d/patch.diff" >/dev/null 2>&1 && ! git diff --name-only --diff-filter=U | grep -q .; then
+      git reset -q; git diff > "$d/patch.diff.new"
+      if cmp -s "$d/patch.diff" "$d/patch.diff.new"; then rm "$d/patch.diff.new"; echo "$n: applies"; else mv "$d/patch.diff.new" "$d/patch.diff"; echo "$n: re-based (3-way)"; fi
+    else
+      git reset -q --hard HEAD
+      if git apply "$d/patch.diff" 2>/dev/null; then echo "$n: applies (plain)"; else echo "$n: CONFLICT - left as it is"; fi
+    fi )
 done
 git -C /repo worktree remove --force "$T/r"; rm -rf "$T"
